@@ -56,6 +56,9 @@ def units_for(prop, tier):
     return res
 
 
+RETRY_SEEDS = (17, 4242)
+
+
 def run_verus(path, timeout=600, extra=()):
     cmd = ['verus', os.path.basename(path), '--output-json', '--time', '--error-format=json', '--num-threads', '4'] + list(extra)
     t0 = time.time()
@@ -188,6 +191,27 @@ def run_unit(unit, mode, outdir, extra=()):
              'obligations': 0, 'discharged': 0, 'smt_ms': 0, 'functions': gen.functions, 'rules': gen.rule_counts, 'clauses': gen.clauses, 'log': gen.log}
     else:
         r = analyse(unit, mode, gen, text, linemap, js, diags, raw, fname)
+        # Solver-instability guard: an obligation counts as failed only if it fails under every solver seed tried.
+        # Sound in the direction that matters: one accepted run is a proof; a real violation fails under every seed.
+        retried = []
+        if r['status'] == 'fail' and not extra:
+            for sd in RETRY_SEEDS:
+                js2, diags2, raw2, wall2, cmd2 = run_verus(path, extra=['--smt-option', 'smt.random_seed=%d' % sd])
+                if raw2 == 'timeout' and js2 is None:
+                    break
+                r2 = analyse(unit, mode, gen, text, linemap, js2, diags2, raw2, fname)
+                retried.append({'seed': sd, 'status': r2['status'], 'failures': len(r2['failures'])})
+                if r2['status'] == 'ok':
+                    r2['unstable_obligations'] = sorted(set(f['obligation'] for f in r['failures']))
+                    r = r2
+                    break
+                if r2['status'] == 'fail':
+                    keep = set(f.get('function') for f in r2['failures'])
+                    both = [f for f in r['failures'] if f.get('function') in keep]
+                    if both:
+                        r['failures'] = both
+        if retried:
+            r['seed_retries'] = retried
     r['wall_s'] = round(time.time() - t0, 2)
     r['cmd'] = cmd
     r['generated'] = path
